@@ -425,8 +425,9 @@ def branches(case, ol, inside, seen_cs):
     return out
 
 
-def evaluate(case):
-    """returns dict(status = ok | skipped | fail | error, rel errors, ...)"""
+def evaluate(case, BH=None):
+    """returns dict(status = ok | skipped | fail | error, rel errors, ...).
+    BH = (B, H) of this row taken from a batched getB/getH call; None: call getB/getH for this observer alone"""
     import warnings
     warnings.simplefilter("ignore")
     try:
@@ -440,9 +441,12 @@ def evaluate(case):
         if case["cls"] in ("Triangle", "Tetrahedron", "TriangularMesh") and edge_angle(case, ol) < TRI_EDGE_CONE:
             # the integral is not judged here (documented precision loss), the interior term still is:
             # B - mu0 H must be J inside and 0 outside whatever the rounding of the surface integral
-            src = build(case)
-            B = np.asarray(src.getB(og), float)
-            H = np.asarray(src.getH(og), float)
+            if BH is None:
+                src = build(case)
+                B = np.asarray(src.getB(og), float)
+                H = np.asarray(src.getH(og), float)
+            else:
+                B, H = (np.asarray(v, float) for v in BH)
             out = {"status": "skipped", "why": "documented precision loss on a triangle edge extension",
                    "inside": bool(inside), "dist_rel": dist / s}
             Jg = M @ np.asarray(case["params"]["polarization"], float)
@@ -458,12 +462,16 @@ def evaluate(case):
         if not ok:
             return {"status": "skipped", "why": "reference quadrature not converged", "evals": ev}
         Href, Bref = M @ Href, M @ Bref
-        src = build(case)
-        _instrument()
-        del _CS_SEEN[:]
-        B = np.asarray(src.getB(og), float)
-        H = np.asarray(src.getH(og), float)
-        seen_cs = list(_CS_SEEN)
+        if BH is None:
+            src = build(case)
+            _instrument()
+            del _CS_SEEN[:]
+            B = np.asarray(src.getB(og), float)
+            H = np.asarray(src.getH(og), float)
+            seen_cs = list(_CS_SEEN)
+        else:
+            B, H = (np.asarray(v, float) for v in BH)
+            seen_cs = []
     except Exception as e:   # pylint: disable=broad-except
         import traceback
         return {"status": "error", "why": f"{type(e).__name__}: {e}", "trace": traceback.format_exc()[-1500:]}
@@ -971,3 +979,95 @@ def shrink_case(case, fails):
 def json_copy(x):
     import json
     return json.loads(json.dumps(x))
+
+
+# =========================================================================== mixed batches
+# One source, >= 16 observers of DIFFERENT kinds (next to the surface / wire, near the axis, far field, inside, ...)
+# in ONE getB and ONE getH call; every row is judged against its own first-principles value.  Vectorised
+# iterations and masks that behave differently when dissimilar rows share a call are only visible this way.
+def gen_batch(rng, cls, nrows=24):
+    for _ in range(20):
+        case = {"cls": cls, "params": gen_params(rng, cls)}
+        if rng.random() < 0.25:
+            case["pos"], case["rotvec"] = [0.0, 0.0, 0.0], [0.0, 0.0, 0.0]
+        else:
+            case["pos"] = [x * size_of(case) * 3 for x in _r3(rng)]
+            case["rotvec"] = (_unit(rng) * rng.uniform(0.1, 3.1)).tolist()
+        kinds = [k for k in dict.fromkeys(KINDS[cls]) if k != "aligned"]     # 'aligned' may rewrite the source
+        rows, rk = [], []
+        s = size_of(case)
+        tries = 0
+        while len(rows) < nrows and tries < 20 * nrows:
+            tries += 1
+            k = kinds[len(rows) % len(kinds)]
+            try:
+                o = np.asarray(gen_observer(rng, case, k), float)
+            except Exception:   # pylint: disable=broad-except
+                continue
+            if not np.all(np.isfinite(o)):
+                continue
+            _, dist = inside_and_dist(case, o)
+            if 1.0e-3 * s <= dist <= 1.0e3 * s:
+                rows.append(o.tolist())
+                rk.append(k)
+        if len(rows) == nrows:
+            case["obs_rows"], case["kinds"] = rows, rk
+            return case
+    raise RuntimeError("no admissible batch generated for " + cls)
+
+
+def row_case(bcase, i):
+    c = {k: bcase[k] for k in ("cls", "params", "pos", "rotvec")}
+    c["obs_local"] = bcase["obs_rows"][i]
+    c["kind"] = bcase["kinds"][i] if "kinds" in bcase else "batch-row"
+    return c
+
+
+def evaluate_batch(bcase, rows=None):
+    """one getB and one getH call for all rows (or the given subset); list of (row index, row case, result)"""
+    import warnings
+    warnings.simplefilter("ignore")
+    idx = list(range(len(bcase["obs_rows"]))) if rows is None else list(rows)
+    M = rotmat(bcase["rotvec"])
+    og = np.array([M @ np.asarray(bcase["obs_rows"][i], float) + np.asarray(bcase["pos"], float) for i in idx])
+    try:
+        src = build(bcase)
+        B = np.asarray(src.getB(og), float).reshape(len(idx), 3)
+        H = np.asarray(src.getH(og), float).reshape(len(idx), 3)
+    except Exception as e:   # pylint: disable=broad-except
+        return [(idx[0], row_case(bcase, idx[0]), {"status": "error", "why": f"batched call: {type(e).__name__}: {e}"})]
+    return [(i, row_case(bcase, i), evaluate(row_case(bcase, i), BH=(B[k], H[k]))) for k, i in enumerate(idx)]
+
+
+def judge_batch(bcase, results):
+    """failures of a batch: (signature, text, replay).  A row that also fails when evaluated alone is the
+    single-observer defect (plain signature); one that fails only in company gets `:mixed-batch` and the batch,
+    shrunk to the failing row plus one partner when a pair suffices, as replay"""
+    out = []
+    for i, rc, r in results:
+        failed, sig, what = judge(rc, r)
+        if not failed:
+            continue
+        alone = evaluate(rc)
+        f1, sig1, what1 = judge(rc, alone)
+        if f1 and sig1 == sig:
+            out.append((sig, what1, {"kind": "field-case", "case": rc}))
+            continue
+        small = None
+        for j in range(len(bcase["obs_rows"])):
+            if j == i:
+                continue
+            sub = evaluate_batch(bcase, rows=[i, j])
+            fj = [judge(c2, r2) for _, c2, r2 in sub if _ == i]
+            if fj and fj[0][0] and fj[0][1] == sig:
+                small = [i, j]
+                break
+        keep = small if small is not None else list(range(len(bcase["obs_rows"])))
+        b2 = {k: bcase[k] for k in ("cls", "params", "pos", "rotvec")}
+        b2["obs_rows"] = [bcase["obs_rows"][k] for k in keep]
+        b2["kinds"] = [bcase["kinds"][k] for k in keep]
+        out.append((sig + ":mixed-batch",
+                    f"in one call with {len(keep) - 1} other observer(s) (row {keep.index(i)} of the replay batch; alone the same "
+                    f"observer is {'fine' if not f1 else 'failing differently: ' + str(sig1)}): " + what,
+                    {"kind": "field-batch", "batch": b2, "row": keep.index(i)}))
+    return out
